@@ -251,6 +251,25 @@ func H_C12_string_bool_nil() {
 // containers are stored by reference: Get hands back the identical value
 func H_C12_containers_by_reference() {
 	e := hEntry()
+	switch nondetIntRange(0, 3) {
+	case 2:
+		// user-defined containers (structs embedding List/Object, registered with Init) are Lists/Objects too
+		in := hDerivedList(nondetInt())
+		s := hStoreVia(e, in)
+		hCheckKind(s, TypeList)
+		r, ok := s.get().(List)
+		verifAssert(ok && r == in, "a List is stored by reference")
+		verifReach("end")
+		return
+	case 3:
+		in := hDerivedObject("x", nondetInt())
+		s := hStoreVia(e, in)
+		hCheckKind(s, TypeObject)
+		r, ok := s.get().(Object)
+		verifAssert(ok && r == in, "an Object is stored by reference")
+		verifReach("end")
+		return
+	}
 	if nondetIntRange(0, 1) == 0 {
 		in := NewList(nondetInt())
 		s := hStoreVia(e, in)
